@@ -2,7 +2,10 @@ from __future__ import annotations
 
 from dataclasses import dataclass, field
 
+import itertools
+
 from typing_extensions import (
+    Iterator,
     Generic,
     Optional,
     Iterable,
@@ -76,6 +79,16 @@ class HashedIterable(Generic[T]):
 
     iterable: Iterable[HashedValue[T]] = field(default_factory=list)
     values: Dict[int, HashedValue[T]] = field(default_factory=dict)
+    _iterator: Optional[Iterator] = field(default=None, init=False, repr=False)
+    """
+    The iterator over the source iterable that is shared by all iterations over this object.
+    """
+    _iterable_of_iterator: Optional[Iterable] = field(
+        default=None, init=False, repr=False
+    )
+    """
+    The iterable that the iterator was made from (the iterable can be replaced).
+    """
 
     def __post_init__(self):
         if self.iterable and not isinstance(self.iterable, HashedIterable):
@@ -135,14 +148,40 @@ class HashedIterable(Generic[T]):
 
     def __iter__(self):
         """
-        Iterate over the hashed values.
+        Iterate over the hashed values, first the ones that were pulled from the source iterable already and then the
+        remaining ones. Several iterations can be active at the same time, every one of them sees all the values,
+        whichever of them pulls a value from the source.
 
         :return: An iterator over the hashed values.
         """
-        yield from self.values.values()
-        for v in self.iterable:
+        number_of_yielded_values = 0
+        while True:
+            if number_of_yielded_values < len(self.values):
+                # the values may have grown while this iteration was suspended.
+                new_values = list(
+                    itertools.islice(
+                        self.values.values(), number_of_yielded_values, None
+                    )
+                )
+                for v in new_values:
+                    number_of_yielded_values += 1
+                    yield v
+            elif not self._pull_value_from_iterable():
+                return
+
+    def _pull_value_from_iterable(self) -> bool:
+        """
+        Move the next value of the source iterable to the values.
+
+        :return: False if the source iterable is exhausted, else True.
+        """
+        if self._iterable_of_iterator is not self.iterable:
+            self._iterable_of_iterator = self.iterable
+            self._iterator = iter(self.iterable)
+        for v in self._iterator:
             self.values[v.id_] = v
-            yield v
+            return True
+        return False
 
     def __or__(self, other) -> HashedIterable[T]:
         return self.union(other)
@@ -184,14 +223,10 @@ class HashedIterable(Generic[T]):
             id_ = id_.id_
         elif not isinstance(id_, int):
             id_ = HashedValue(id_).id_
-        try:
-            return self.values[id_]
-        except KeyError:
-            for v in self.iterable:
-                self.values[v.id_] = v
-                if v.id_ == id_:
-                    return v
-            raise KeyError(id_)
+        while id_ not in self.values:
+            if not self._pull_value_from_iterable():
+                raise KeyError(id_)
+        return self.values[id_]
 
     def __setitem__(self, id_: int, value: HashedValue[T]):
         """
